@@ -628,6 +628,19 @@ class SingleAdapter(Adapter, ABC):
             front_adapter,
             internal,
         )
+        if self.indels:
+            # With insertions in the read, an occurrence of (a part of) the adapter
+            # can be longer than the adapter part itself by up to the number of
+            # allowed errors, so the k-mer may lie further away from the read end.
+            max_errors = int(len(sequence) * self.max_error_rate)
+            positions_and_kmers = [
+                (
+                    start - max_errors if start < 0 else start,
+                    stop + max_errors if stop is not None and stop > 0 else stop,
+                    kmers,
+                )
+                for start, stop, kmers in positions_and_kmers
+            ]
         if self._debug:
             print(kmer_probability_analysis(positions_and_kmers))
         try:
